@@ -397,6 +397,10 @@ func (s *Sim) abort(why string) {
 
 func (s *Sim) Aborted() string { return s.aborted }
 
+// ClearAbort is for a check whose property is exactly "requests finish": it turns the abort (deadlock,
+// lock never released, step budget) into a violation and must not have the run discarded as inconclusive.
+func (s *Sim) ClearAbort() { s.aborted = "" }
+
 // schedPoint is a point at which the running task may be preempted.
 func (s *Sim) schedPoint(t *Task) {
 	s.stepNo++
